@@ -837,6 +837,42 @@ class SymBytes(object):
     def hex(self):
         return bytes_concretize(self).hex()
 
+    def rstrip(self, chars=None):
+        cs = tuple(chars) if chars is not None else tuple(b' \t\n\r\x0b\x0c')
+        e = list(self.e)
+        while e:
+            hit = False
+            for c in cs:
+                if e[-1] == c:        # forks when symbolic
+                    hit = True
+                    break
+            if not hit:
+                break
+            e.pop()
+        return SymBytes(e)
+
+    def lstrip(self, chars=None):
+        cs = tuple(chars) if chars is not None else tuple(b' \t\n\r\x0b\x0c')
+        e = list(self.e)
+        while e:
+            hit = False
+            for c in cs:
+                if e[0] == c:
+                    hit = True
+                    break
+            if not hit:
+                break
+            e.pop(0)
+        return SymBytes(e)
+
+    def startswith(self, p):
+        p = tuple(p)
+        return len(p) <= len(self.e) and bool(SymBytes(self.e[:len(p)]) == bytes_or_sym(p))
+
+    def endswith(self, p):
+        p = tuple(p)
+        return len(p) <= len(self.e) and bool(SymBytes(self.e[len(self.e) - len(p):]) == bytes_or_sym(p))
+
     def __repr__(self):
         return 'SymBytes<%d>' % len(self.e)
 
@@ -850,6 +886,10 @@ def _as_byteseq(s):
     if isinstance(s, (SymInt, builtins.int)):
         raise TypeError('sequence item: expected a bytes-like object, int found')
     raise TypeError('sequence item: expected a bytes-like object, %s found' % type(s).__name__)
+
+
+def bytes_or_sym(t):
+    return SymBytes(t)
 
 
 def bytes_concretize(b):
